@@ -11,6 +11,77 @@ NOTE_COMMON = ("Trusted: Lean 4.33 kernel; axioms per theorem subset of {propext
 
 # property -> (technique, level text, design section, extra note)
 CLAIMED = {
+    "C02": ("Lean 4 theorems on an executable model of lattice_lib hypercube/simplex evaluation (hat/ramp Abel summation, "
+            "tensor-product induction, sorted-walk induction) + differential correspondence of Lattice(...) and the lattice_lib "
+            "functions vs the native Lean driver + independent numpy reference oracle",
+            "Theorems (Props/C02.lean), all ranks/shapes/kernels/points: every code path of compute_interpolation_weights / "
+            "batch_outer_operation is the row-major outer product of hat weights and the hypercube output equals iterated 1-D "
+            "interpolation; vertex reproduction, convex weights, range bound, cell chord formula on closed cells (continuity), "
+            "all-pairs monotonicity along a monotone kernel axis, Edgeworth effect-monotonicity. Simplex: convex weights, sorted "
+            "permutation, pipeline = vertex walk, vertex/edge agreement and monotonicity within an ordering region at index level.",
+            "4/C02", "PARTIAL: the simplex flat-index<->multi-index bridge and all-pairs simplex monotonicity are stated as "
+            "`def : Prop` (C02_simplex_index_bridge, C02_simplex_mono_all_pairs), covered by the correspondence and oracle only. "),
+    "C04": ("Lean 4 theorems on an executable model of pwl_calibration_lib.project_all_constraints (Dykstra loop with last_change, "
+            "finalisation, squeeze) + differential correspondence (PWLCalibrationConstraints, layer wiring, private stages) + oracle",
+            "Theorems (Props/C04.lean), all kernels/sizes/positive spacings/iteration counts: result monotone exactly, within "
+            "bounds in every configuration, convex/concave exactly with monotonicity or without bounds, feasible => unchanged, "
+            "imputed missing output in bounds; the finalisation establishes these from ANY input. Clamps: near end proved for "
+            "iterations >= 1; iterations = 0 is known finding F-C04-b with a counter-witness theorem.",
+            "4/C04", "PARTIAL: ClampBothEnds (far-end clamp) is a `def : Prop`, covered by the oracle only. "),
+    "C05": ("Lean 4 theorems (induction over piece lists: sum of clipped ramps = convex combination of cumulative sums) on an "
+            "executable model of compute_interpolation_weights / PWLCalibration.call / CategoricalCalibration.call + differential "
+            "correspondence of the real Keras layers + np.interp oracle",
+            "Theorems (Props/C05.lean), all keypoint vectors/kernels/weights/inputs: output = PWL interpolation through the reported "
+            "keypoints (value at nodes, linear between, constant outside, equal ends when cyclic), missing path, learned keypoints "
+            "strictly ordered between the fixed ends for any positive weights summing to one, monotone/bounded outputs => "
+            "monotone/bounded function, category lookup.",
+            "4/C05", "softmax abstracted as arbitrary positive weights summing to 1; float32 softmax underflow is known finding F-C05-a. "),
+    "C07": ("Lean 4 theorems on an executable model of KFL evaluation and kernel/scale constraints (histories as op lists) + "
+            "differential correspondence on the real layer under random constraint histories + pairwise-monotonicity/bounds oracle",
+            "Theorems (Props/C07.lean), all sizes/dims/terms/monotonicity subsets/bound modes: any interleaving of kernel and scale "
+            "constraints (or finalize_constraints) from any finite kernel and scale yields outputs monotone in every increasing "
+            "input and within bounds on the stated domain; old guard counter-witness (fixed F-C07-a).",
+            "4/C07", "the dims-th root is an arbitrary factor r with r >= 1 and r^dims >= largest product (checked by the driver on "
+            "the code's float32 factor); float32 layer, tolerance 1e-4. "),
+    "C12": ("Lean 4 iff-theorems (reduce_min/max <-> forall) on executable models of every assert_constraints + accept/reject "
+            "differential on LP-generated feasible / single-violation / exact-threshold kernels",
+            "Theorems (Props/C12.lean): accepts = true <-> every covered constraint has slack >= -eps, for categorical, linear "
+            "(incl. order-2 norm without sqrt), PWL, all seven asserted lattice kinds incl. the trailing unit axis, KFL monotonicity.",
+            "4/C12", "PARTIAL: KFL bound assertions modelled and tied, no iff theorem; coverage gaps of the real asserts "
+            "(unimodality, KFL non-negativity, PWL convexity) are reported in evidence notes. "),
+    "C13": ("Lean 4 theorems over index-function tensors (reindexing by nodup bijection, List.Perm, induction) on code-shaped models "
+            "of the regularizers + differential correspondence + numpy oracle of the documented formulas",
+            "Theorems (Props/C13.lean), all shapes/units/amounts/kernels: lattice Laplacian/torsion (transpose, reshape, slices) "
+            "equal the documented sums; PWL Laplacian/Hessian/wrinkle equal the l1/l2 norms of 1st/2nd/3rd differences incl. cyclic "
+            "wrap-around; non-negativity, linearity in amounts, all vanishing sets.",
+            "4/C13", "the per-unit `sum over units` form is checked by the driver on every case, not proved. "),
+    "C17": ("Lean 4 theorems on executable models of _get_rtl_structure / random ensemble / pair cover / Crystals (randomness as "
+            "explicit permutations) + differential correspondence with replayed permutations + oracle",
+            "Theorems (Props/C17.lean), all sizes and ALL permutations/draws: RTL exact rank, every input used, usage counts differ "
+            "by <= 1, monotone wiring and output label; random ensemble (rank, no repeats, coverage, conditional on success); "
+            "all-pairs cover complete with sizes <= rank.",
+            "4/C17", "PARTIAL: the Crystals final structure (CrystalsSpec) is a `def : Prop`, covered by exact correspondence and the "
+            "oracle; zero-score features are known finding F-C17-a. "),
+    "C18": ("Lean 4 theorems on an executable model of compute_keypoints / _weighted_quantile (half-even rounding with explicit "
+            "tie directions) + differential correspondence on exact dyadic samples + oracle",
+            "Theorems (Props/C18.lean), all samples/weights/tie directions: nearest-rank indices strictly increasing in range; "
+            "unweighted and weighted quantiles end to end (k strictly increasing keypoints from the clipped sample, ends = "
+            "extremes / clip bounds), repair loop spec, uniform mode, count clause.",
+            "4/C18", "degenerate inputs (all-zero weights with k>2, all-default sample in uniform mode) are known findings F-C18-c/d; "
+            "np.linspace/np.interp float ties are an explicit rounding-direction argument. "),
+    "C19": ("Lean 4 theorems on the model of custom_reduce_prod's grad_fn + GradientTape correspondence with planted exact zeros + "
+            "Jacobian oracle",
+            "Theorems (Props/C19.lean): for every list and index and every zero pattern the gradient factor equals the product of "
+            "the other entries and is the exact difference quotient of the product; outputs of the generic form dot(w, K) are "
+            "linear in K with coefficient w.",
+            "4/C19", "PARTIAL: linearity is proved for the generic dot form; Lattice/PWL/categorical layers are tied to it by the "
+            "Jacobian correspondence (non-negative, summing to one for Lattice); no HasDerivAt statement. "),
+    "C20": ("Lean 4 theorems (structural induction on dot/clip) on the model of Linear.call + differential correspondence of the "
+            "real float64 layer + consequence oracles on constrained kernels",
+            "Theorems (Props/C20.lean), all kernels/bounds/inputs: output = bias + sum k_i*clip(x_i); clip monotone and in bounds; "
+            "k_i >= 0 (<= 0) => non-decreasing (non-increasing) in x_i for all pairs; monotonic dominance per unit step, range "
+            "dominance across full ranges, weighted average for norm-1 non-negative weights; composition with C06's constraint theorems.",
+            "4/C20", "monotonic dominance needs the four compared inputs unclipped. "),
     "C01": ("Lean 4 theorems on an executable model of lattice_lib.finalize_constraints / project_by_dykstra / "
             "LatticeConstraints.__call__ + differential correspondence (finalize_constraints, LatticeConstraints, "
             "Lattice.finalize_constraints) + oracle",
@@ -22,6 +93,13 @@ CLAIMED = {
             "correspondence+oracle each run; the class violating the property is proved as a counter-witness "
             "(C01_counter_witness) and listed as known finding F-C01-a.",
             "4/C01", "C01_full (all configurations) is NOT proved: trapezoid stages are modelled and tied, not proved. "),
+    "C08": ("Lean 4 model of project_by_dykstra (all group projections + schedule) + differential correspondence per family and "
+            "combined + fixpoint / convergence / QP-nearest-point oracle (scipy SLSQP)",
+            "Theorems (Props/C08.lean): feasible/fixed kernels are returned unchanged by the Dykstra loop with all "
+            "roll-back tensors zero for EVERY iteration count (dykstra_fixpoint, monoGroup_fix); the telescoping invariant "
+            "w - sum(last_change) holds along every pass for ANY group maps; every stencil map (pair, 2x2 square, both triangles, "
+            "range quadruple and corner) lands in its half-space, fixes it and satisfies the variational inequality, i.e. is the "
+            "exact Euclidean projection. The executable model agrees with project_by_dykstra on every family.", "4/C08", "PARTIAL: convergence of Dykstra's algorithm (violation -> 0, limit = nearest point) is NOT proved (C08_limit_partial); it is tested each run against scipy SLSQP on small lattices, and the PWL iterative projection is covered by the oracle here and by C04's model. "),
     "C06": ("Lean 4 theorems on an executable model of linear_lib.project / categorical project / "
             "internal_utils partial-order projection + differential correspondence against the real constraints",
             "Theorems (Props/C06.lean): categorical pairs+bounds+fixpoint; Linear sign clip, monotonic-dominance and range-dominance stages establish every pair and keep signs (non-zero scalings), normalisation keeps all and gives unit 1-norm, feasible=>unchanged; for every weight "
